@@ -26,6 +26,10 @@ def load_known():
     return out
 
 
+# rules that fold functions with unbounded domains on region representatives (DESIGN 11.2); VERIF_NO_VALUE_MAPS=1 switches them off
+VALUE_MAP_RULES = ("r_value_map", "r_date_arith", "r_timestamp_map", "r_rule_map", "r_replace_map", "r_resolution_map", "r_rounding_map", "r_resolve_year_map", "r_ts_visitors_map")
+
+
 class Check:
     def __init__(self, pid, tier="quick", seed=0, only_key=None):
         self.pid = pid
@@ -80,6 +84,9 @@ class Check:
     def guarded(self, fn, *a, **kw):
         """run one rule; a lost anchor or an internal error is a violation (fail closed)"""
         rid_before = self.cur
+        if os.environ.get("VERIF_NO_VALUE_MAPS") and fn.__name__ in VALUE_MAP_RULES:
+            self.assumptions.append("value-map rule %s switched off (VERIF_NO_VALUE_MAPS)" % fn.__name__) if hasattr(self, "assumptions") else None
+            return
         try:
             fn(self, *a, **kw)
         except AnchorLost as e:
